@@ -8,4 +8,9 @@ def triplesATrees : List Shape := (Shape.uns unOps (sh2 unOps levelOps) ++ Shape
 set_option maxRecDepth 100000 in
 theorem triplesA_exact : (triplesATrees.all fun s => devsExact s.eqn) = true := by decide +kernel
 
+set_option maxRecDepth 100000 in
+/-- every text form of every tree of this part round-trips -/
+theorem triplesA_all : (triplesATrees.all fun s => roundTripsEqn s.eqn && roundTripsScript s.eqn && roundTripsFilter s.eqn) = true := by
+  decide +kernel
+
 end OjgVerif.JPText
